@@ -160,3 +160,29 @@ Proof.
   intros Ha. destruct (v3dot_opp_self a Ha) as [H1 H2]. unfold hr_force. cbn [comp_lgrad].
   rewrite (uv_grad_singular a a (or_introl H1)), (uv_grad_singular a _ (or_intror H2)). split; reflexivity.
 Qed.
+
+(* ------------------------------------------------------------------ one metadynamics hill / one OPES kernel *)
+Lemma hill_wrap W sigma kind x c : comp_ok kind ->
+  hill_energy Rops PI W sigma kind (comp_wrap Rops kind x) (comp_wrap Rops kind c) = hill_energy Rops PI W sigma kind x c /\
+  hill_force Rops PI W sigma kind (comp_wrap Rops kind x) (comp_wrap Rops kind c) = hill_force Rops PI W sigma kind x c.
+Proof.
+  intros Hk. unfold hill_energy, hill_force, hill_value. destruct (comp_wrap_dist2 kind x c Hk) as [E1 E2]. rewrite E1, E2. split; reflexivity.
+Qed.
+Lemma hill_periodic_images W sigma P c0 x c (n m : Z) : 0 < P ->
+  hill_energy Rops PI W sigma (KPeriodic P c0) (VS (x + IZR n * P)) (VS (c + IZR m * P)) = hill_energy Rops PI W sigma (KPeriodic P c0) (VS x) (VS c) /\
+  hill_force Rops PI W sigma (KPeriodic P c0) (VS (x + IZR n * P)) (VS (c + IZR m * P)) = hill_force Rops PI W sigma (KPeriodic P c0) (VS x) (VS c).
+Proof.
+  intros HP. unfold hill_energy, hill_force, hill_value. cbn [comp_dist2 comp_lgrad].
+  rewrite (per_period P x c n m HP), (per_grad_period P x c n m HP). split; reflexivity.
+Qed.
+Lemma hill_quaternion_sign W sigma q c :
+  hill_energy Rops PI W sigma KQuat (VQ (qneg Rops q)) (VQ c) = hill_energy Rops PI W sigma KQuat (VQ q) (VQ c) /\
+  hill_energy Rops PI W sigma KQuat (VQ q) (VQ (qneg Rops c)) = hill_energy Rops PI W sigma KQuat (VQ q) (VQ c).
+Proof. unfold hill_energy, hill_value. cbn [comp_dist2]. rewrite q_sign_l, q_sign_r. split; reflexivity. Qed.
+Lemma opes_kernel_images h sigma cut vac P c0 kc x (n m : Z) : 0 < P ->
+  opes_kernel Rops PI h sigma cut vac (KPeriodic P c0) (kc + IZR n * P) (x + IZR m * P) = opes_kernel Rops PI h sigma cut vac (KPeriodic P c0) kc x /\
+  opes_kernel Rops PI h sigma cut vac (KPeriodic P c0) (cvc_wrap Rops c0 P kc) (cvc_wrap Rops c0 P x) = opes_kernel Rops PI h sigma cut vac (KPeriodic P c0) kc x.
+Proof.
+  intros HP. unfold opes_kernel. cbn [comp_dist2]. rewrite (per_period P kc x n m HP).
+  destruct (wrap_dist2_both c0 c0 P kc x HP) as [E _]. rewrite E. split; reflexivity.
+Qed.
